@@ -739,6 +739,20 @@ func (x *g) vcase(c config, force string) string {
 		if s.variant == "L" {
 			m = append(bytes.Clone(msg), 0)
 		}
+		if s.scheme == "pkcs1" && s.variant != "L" && r.Intn(8) == 0 {
+			// a genuine signature whose value starts with a zero byte, presented with that
+			// byte removed (PKCS1 v1.5 signatures are deterministic: search the message)
+			std := rk.std(65537)
+			base := append(bytes.Clone(msg), 0, 0)
+			for t := 0; t < 4000; t++ {
+				base[len(base)-2], base[len(base)-1] = byte(t>>8), byte(t)
+				sg, err := rsa.SignPKCS1v15(nil, std, cryptoHash(s.hash), digestOf(s.hash, base))
+				if err == nil && sg[0] == 0 {
+					v.msg = bytes.Clone(base)
+					return withBody(sg[1:], "bad:lead-zero-stripped")
+				}
+			}
+		}
 		switch k := r.Intn(12); {
 		case k == 0:
 			body[r.Intn(len(body))] ^= 1 << r.Intn(8)
